@@ -115,4 +115,42 @@ theorem validate_args_decision (a : ValArgs) (tty : Bool) (loads : List (List Bo
     ∧ (valErrors a tty ≠ [] → validate a tty loads stdin = ⟨[], 1⟩) :=
   Lemmas.validate_args a tty loads stdin
 
+/-! ## yaml-set -/
+
+/-- yaml-set leaves the document the Edit model predicts: a run with exit status 0 read a non-null
+document `d`, passed validation, and wrote (to the file, or to standard output when the document came
+from there) exactly `op.apply d` for the edit `op = setOp …` built from the arguments and the gathered
+addresses (`Ypv.delete`, `setValue` or `setOrCreate` of `Model/Edit.lean`) — or `d` itself when nothing
+was to be applied; `FILE.bak` holds `d` exactly when `--backup` was given.  A run with any other status
+(1 or 20) writes nothing and takes no backup. -/
+theorem set_file_is_model_result (ev : Node → Gather) (a : SetArgs) (tty : Bool)
+    (ld : Option (Option Node)) (segs : Option (List PSeg)) (o : SetOut)
+    (h : set ev a tty ld segs = some o) :
+    (o.exit = 0 →
+        ∃ d, ld = some (some d) ∧ setErrors a tty = [] ∧
+          ((a.src = .none ∧ o.written = some (setDest a, d)) ∨
+            ∃ op d', setOp a (ev d) segs = some op ∧ op.apply d = .ok d' ∧ o.written = some (setDest a, d'))
+          ∧ o.backup = (if a.backup then some d else none))
+    ∧ (o.exit ≠ 0 → o.written = none ∧ o.backup = none ∧ (o.exit = 1 ∨ o.exit = 20)) :=
+  Lemmas.set_result ev a tty ld segs o h
+
+/-- The argument-validation decision list of yaml-set (status 1, nothing read or written). -/
+theorem set_args_decision (ev : Node → Gather) (a : SetArgs) (tty : Bool) (ld : Option (Option Node))
+    (segs : Option (List PSeg)) :
+    (setErrors a tty ≠ [] ↔
+        (a.file = none ∧ (a.nostdin = true ∨ tty = true))
+        ∨ (a.src.truthy = false ∧ a.anchor = .unset ∧ a.tag = false)
+        ∨ (isStdinSrc a.src = true ∧ inStream a.file a.nostdin tty = true)
+        ∨ (a.anchor = .name ∧ a.src ≠ .aliasof ∧ a.src ≠ .mergekey)
+        ∨ (a.backup = true ∧ inStream a.file a.nostdin tty = true)
+        ∨ (savetoSet a = true ∧ a.saveto = some a.change)
+        ∨ a.priv = .bad ∨ a.pub = .bad ∨ a.randomFromShort = true)
+    ∧ (setErrors a tty ≠ [] → set ev a tty ld segs = some (.fail 1)) :=
+  Lemmas.set_args ev a tty ld segs
+
+/-- A delete through the tool is the Edit model's delete of the gathered addresses. -/
+example (g : Gather) (segs : Option (List PSeg)) (a : SetArgs) (h : a.src = .delete) :
+    setOp a g segs = some (.delete g.addrs) := by
+  simp [setOp, h]
+
 end Ypv.Cli
